@@ -507,3 +507,32 @@ package bbolt
 //@   loop 0 invariant [i] 0 <= i && i <= 2 && len(buf) == 4 * db.pageSize && offof(buf) == 0 && nwrites == old(nwrites) && unsynced == old(unsynced)
 //@   loop 0 invariant [m0] i >= 1 ==> (let m := metaof(bufpage(arrayof(buf), 0, 0)) in m.magic == common.Magic && m.version == common.Version && m.pageSize == db.pageSize && m.freelist == 2 && m.root.root == 3 && m.root.sequence == 0 && m.pgid == 4 && m.txid == 0 && m.checksum == msum(m)) && bufpage(arrayof(buf), 0, 0).id == 0 && bufpage(arrayof(buf), 0, 0).flags == common.MetaPageFlag
 //@   loop 0 invariant [m1] i >= 2 ==> (let m := metaof(bufpage(arrayof(buf), 0, 1)) in m.magic == common.Magic && m.version == common.Version && m.pageSize == db.pageSize && m.freelist == 2 && m.root.root == 3 && m.root.sequence == 0 && m.pgid == 4 && m.txid == 1 && m.checksum == msum(m)) && bufpage(arrayof(buf), 0, 1).id == 1 && bufpage(arrayof(buf), 0, 1).flags == common.MetaPageFlag
+
+//@ ghost var lastopenflag int      -- flag argument of the most recent open of the data file
+//@ ghost var lastflockdb int       -- the DB whose file was most recently locked
+
+//@ func DB.openFile
+//@   trusted
+//@   returns (f, err)
+//@   ensures lastopenflag == flag && (err == nil ==> f != nil && fresh(f))
+//@   modifies lastopenflag
+
+//@ func newFreelist
+//@   trusted
+//@   ensures result != nil
+//@   modifies nothing
+
+//@ func (*DB).loadFreelist$1
+//@   props C13
+//@   requires db != nil && db.meta0 != nil && db.meta1 != nil && (metavalid(db.meta0) || metavalid(db.meta1))
+//@   ensures [loaded] db.freelist != nil
+//@   ensures [synced] dbmeta(db).freelist != common.PgidNoFreelist ==> calls("freelist.Interface.Read", db.freelist) == old(calls("freelist.Interface.Read", db.freelist)) + 1 && lastread == dbpage(db, dbmeta(db).freelist) && calls("freelist.Interface.Init", db.freelist) == old(calls("freelist.Interface.Init", db.freelist))
+//@   ensures [scanned] dbmeta(db).freelist == common.PgidNoFreelist ==> calls("freelist.Interface.Init", db.freelist) == old(calls("freelist.Interface.Init", db.freelist)) + 1 && calls("(*DB).freepages", db) == old(calls("(*DB).freepages", db)) + 1 && calls("freelist.Interface.Read", db.freelist) == old(calls("freelist.Interface.Read", db.freelist))
+//@   ensures [same] db.meta0 == old(db.meta0) && db.meta1 == old(db.meta1) && db.data == old(db.data) && dbmeta(db) == old(dbmeta(db)) && metavalid(db.meta0) == old(metavalid(db.meta0)) && metavalid(db.meta1) == old(metavalid(db.meta1))
+
+//@ func (*DB).loadFreelist
+//@   props C13
+//@   requires db != nil && db.meta0 != nil && db.meta1 != nil && (metavalid(db.meta0) || metavalid(db.meta1))
+//@   ensures [once] db.freelistLoad.done
+//@   ensures [loaded] !old(db.freelistLoad.done) ==> db.freelist != nil
+//@   ensures [noreload] old(db.freelistLoad.done) ==> db.freelist == old(db.freelist)
